@@ -204,9 +204,25 @@ _ADD_LEVEL4 = {
 }
 for _k, _v in _ADD_LEVEL4.items():
     LEVEL[_k] = LEVEL[_k] + _v
+# ---- after the fifth seeding round (DESIGN.md C13) ----
+_ADD_LEVEL5 = {
+    "C08": " Added: a column writer's row counter advances only on paths that emit the row (path rule).",
+    "C11": " Added: a wrapper that realigns in its own next()/skip_to() does not inherit the child's unfiltered all_ids().",
+    "C13": " Added: column row counter / emission pairing (C08-R9).",
+    "C15": " Added: no query class body defines __eq__ without __hash__; Not(NullQuery).normalize (known finding).",
+    "C16": " Added: lower bounds on the length of the parser's stacks (x[-1], x[0], pop() only where the bound is >= 1).",
+    "C19": " Added: the fuzzy prefix is clamped to the word length; every corrector yields (score, word) pairs; the list corrector's "
+           "lookup cursor moves only to a bisection result.",
+}
+for _k, _v in _ADD_LEVEL5.items():
+    LEVEL[_k] = LEVEL[_k] + _v
+for _k in list(LEVEL):
+    LEVEL[_k] = LEVEL[_k] + (" Generic families over the property's anchor files: G1 no argument bound to the slot of another, same-named "
+                             "parameter of the resolved callee; G2 no parameter dropped on the way to the callee that takes it; G3 no attribute "
+                             "name read that nothing in the package or the standard library defines.")
 for _k in list(NOTE):
     NOTE[_k] = NOTE[_k] + (" All rules are invariant under the behaviour-preserving whole-tree transformations of tools/robust.py "
-                           "and silent on the 198 confirmed refactorings under benign/ (thorough tier). Independent seeding rounds: an unseen "
-                           "regression was caught in 19/40, 20/60, 23/60 and 25/60 cases before the rules were strengthened; an unseen refactoring "
-                           "raised a false alarm in 27/80, 27/57 and 15/60 cases before the machinery was corrected (DESIGN.md C2, C8, C12). The "
-                           "transformations are now 22.")
+                           "and silent on the 258 confirmed refactorings under benign/ (thorough tier). Independent seeding rounds: an unseen "
+                           "regression was caught in 19/40, 20/60, 23/60, 25/60 and 21/60 cases before the rules were strengthened; an unseen refactoring "
+                           "raised a false alarm in 27/80, 27/57, 15/60 and 15/60 cases before the machinery was corrected (DESIGN.md C2, C8, C12, C13). "
+                           "The transformations are now 22.")
